@@ -175,6 +175,28 @@ func worker(t *testing.T, p *Property, j job) {
 		for k, v := range res.Counters {
 			s.Counters[k] += v
 		}
+		if c.Sched != nil {
+			// which scheduling regimes the batch used (swarm style: drawn per case)
+			switch {
+			case c.Sched.PreemptPPM == 0:
+				s.Counters["schedule:no_preemption"]++
+			case c.Sched.PreemptPPM <= 5_000:
+				s.Counters["schedule:rare_preemption"]++
+			case c.Sched.PreemptPPM <= 30_000:
+				s.Counters["schedule:moderate_preemption"]++
+			default:
+				s.Counters["schedule:frequent_preemption"]++
+			}
+			if c.Sched.HoldMax > 0 {
+				s.Counters["schedule:long_preemptions(hold_max)"]++
+			}
+			if c.Sched.HotPPM > 0 {
+				s.Counters["schedule:hot_preemption_before_guard"]++
+			}
+			if c.Sched.StallPPM > 0 {
+				s.Counters["schedule:simulated_time_stalls"]++
+			}
+		}
 		for _, st := range res.States {
 			if len(states) < 200000 {
 				states[st] = true
